@@ -125,6 +125,15 @@ int main(int argc, char **argv)
                                 if (lite && cap == 16) continue;
                                 build(k, cap, shared);
                                 snprintf(SW.extra, sizeof SW.extra, "kind=%d cap=%d shared=%d", k, cap, shared);
+                                /* a CR followed by what looks like a new command, at every position of argument texts up to 3 x capacity */
+                                for (int L = 0; L <= 3 * cap; L++)
+                                        for (int v = 0; v < 3; v++) {
+                                                static const char *EMB[3] = {"\rAT+Z", "\rat+z", "\r\rAT+Z"};
+                                                int n = 0;
+                                                for (int i = 0; i < L; i++) a[n++] = 'x';
+                                                for (const char *q = EMB[v]; *q; q++) a[n++] = (uint8_t)*q;
+                                                if (n < (int)sizeof a && run_args(a, n)) goto out;
+                                        }
                                 /* positional sweep: every byte value at every position of every length */
                                 for (int L = 0; L <= 3 * cap; L++) {
                                         for (int fill = 0; fill < 2; fill++) {
